@@ -297,6 +297,20 @@ func runIDsConc(id, g, m int) {
 }
 
 func runIDs(g *gen) {
+	// fixed sequences: reindex of a never-created id of the current day (leaves a gap), then several
+	// uploads (the newest-row lookup must keep counting past the foreign row); the same with a future day
+	for _, ops := range [][]string{
+		{"1c@0", "R-3:1c", "1c@0", "2c@0", "1a@0", "0c@0"},
+		{"1c@0", "1c@0", "R-3:0a", "1c@0", "1c@0", "R0:2c", "1c@0"},
+		{"1c@0", "R-2:1c", "1c@0", "1c@1", "1c@1"},
+		{"R-1:2c", "1c@0", "1c@0", "R-1:0a", "1c@2"},
+	} {
+		id := g.id
+		g.id++
+		if !g.skip(id) {
+			runIDsSeq(id, ops)
+		}
+	}
 	for i := 0; i < hx.N(18, 180); i++ {
 		var ops []string
 		for n := 1 + g.r.Intn(8); n > 0; n-- {
